@@ -16,7 +16,7 @@ Open Scope Z_scope.
 
 (* DevInv holds in every state reachable by a history of the alphabet {shard, set_pipeline_stage,
    add/remove configuration (cascade), rename, replace_input_with, resize_outputs, resize_inputs, remove node,
-   clone, to_proto;from_proto at IR >= 11}, over models with nested subgraph bodies, from any state satisfying
+   clone, to_proto;from_proto at any IR version}, over models with nested subgraph bodies, from any state satisfying
    it — for all histories, no bound.
    ops_ok is the alphabet of DESIGN §6 C19: configurations registered at the time of the request, device
    indices inside range(num_devices), removal with cascade (Example: Proofs3.ex_ops_ok). *)
@@ -115,23 +115,13 @@ Theorem C19_resolve_through_scopes : forall h s nm v, resolve h s nm = Some v ->
 Proof. exact resolve_sound. Qed.
 Print Assumptions C19_resolve_through_scopes.
 
-(* Below IR 11 the model configurations are not serialized, and neither are the annotations of the nodes of the
-   main graph and of functions.  (The property speaks of round trips at IR >= 11; ops_ok admits ORoundTrip only
-   there.) *)
+(* Below IR 11 the multi-device fields are not serialized: every annotation, at every nesting depth, and every
+   configuration is dropped, and DevInv is kept (Example: Proofs3.nest_old_ir). *)
 Theorem C19_roundtrip_old_ir : forall h h',
   s_ir h < MULTI_DEVICE_SUPPORTED_VERSION -> roundtrip h = (h', Ok tt) ->
-  s_cfgs h' = [] /\ Forall (fun p => node_scope h (fst p) < 2 -> n_dc (snd p) = []) (s_nodes h').
+  s_cfgs h' = [] /\ Forall (fun p => n_dc (snd p) = []) (s_nodes h') /\ DevInv h'.
 Proof. exact roundtrip_old_ir. Qed.
 Print Assumptions C19_roundtrip_old_ir.
-
-(* Observation outside the property's quantifier: below IR 11 the gate is not applied inside subgraph bodies
-   (serialize_graph_into is called for graph attributes without the model's IR version), so a nested node keeps
-   its annotation while the configurations are dropped: the reference dangles, the library's check reports it. *)
-Theorem C19_old_ir_nested_dangles :
-  exists h, DevInv h /\ s_ir h < MULTI_DEVICE_SUPPORTED_VERSION /\ snd (roundtrip h) = Ok tt
-            /\ ~ DevInv (fst (roundtrip h)) /\ check (fst (roundtrip h)) = [(3, 1, 0); (10, 1, 0); (10, 1, 1)].
-Proof. exact old_ir_nested_dangles. Qed.
-Print Assumptions C19_old_ir_nested_dangles.
 
 (* Outside the alphabet (documented behaviour of cascade=False, not a finding): the invariant's configuration
    clause does not survive and the library's check says so. *)
